@@ -114,6 +114,20 @@ def c20(tier: str) -> int:
         if len(res['lexicons']) > 1 and rng.random() < 0.4:
             rng.shuffle(res['lexicons'])       # scan and load must agree on the order, whatever it is
         cases.append({'id': k + 1, 'res': res, 'seed': rng.randrange(10 ** 9), 'per_kind': 3 if thorough else 2})
+    # two documents that hold nothing but an extension (its base is in no file and not
+    # installed): every run then meets the listed finding DevAddSkipsWithoutParsing - add()
+    # returns at "nothing to do" without parsing, whatever is wrong with the rest of the file
+    r2 = random.Random(seed() * 37 + 20)
+    want = 6 if thorough else 2
+    while want:
+        res = docs.random_resource(r2, r2.choice(['1.1', '1.2', '1.3']), adversarial=r2.random() < 0.5,
+                                   extension=True)
+        ext = [L for L in res['lexicons'] if L.get('extends')]
+        if ext:
+            res['lexicons'] = ext[:1]
+            cases.append({'id': len(cases) + 1, 'res': res, 'seed': r2.randrange(10 ** 9),
+                          'per_kind': 3 if thorough else 2})
+            want -= 1
     recs = run_cases('mutants', cases)
     jd = tlc_judge('Judge_C20', recs, cfg='Judge.cfg', shards=NCPU)
     v.add_judgement('Judge_C20', jd, {x['id']: x for x in recs},
